@@ -5,6 +5,9 @@ from harness.lifecycle import run_lifecycle, replay_lifecycle, run_construct
 def run(ctx):
     run_construct(ctx)
     run_lifecycle(ctx, "C12")
+    if not ctx.quick:      # the composed loop (real script + real command-line programs): this property's clauses of it
+        from harness.pipeline import run_e2e
+        run_e2e(ctx, "C12", [(2, ctx.seed), (3, ctx.seed + 1)])
 
 
 def replay(ctx, rp):
